@@ -366,6 +366,29 @@ def main():
     for _ in range(n_e2e):
         slow.append(gen_c15.e2e_history(rng))
 
+    # directed (real code only): the cron service is unreachable while a location is reloaded (an ephemeral cron: the add hook runs for every
+    # stored scheduled rule). Whatever the reload answers, the stored rules are still stored: after the outage a restart finds them
+    # and registers them.
+    oc = []
+    for st in ("indexed", "linear"):
+        for nref in (1, 2):
+            sr = lambda s_: {"schedule": s_, "action": {"code": "(1)", "verif_tmpl": {"t": "lit", "v": 1}}}
+            oc.append({"kind": "c15.hist", "mode": "rec", "state": st, "locs": ["A"], "cron": {"persistent": False, "byLoc": False}, "family": "outage", "ops": [
+                {"op": "addRule", "loc": "A", "id": "s1", "rule": sr("+1h")}, {"op": "addRule", "loc": "A", "id": "s2", "rule": sr("0 0 1 1 *")},
+                {"op": "addFact", "loc": "A", "id": "f1", "fact": {"k": 1}},
+                {"op": "cronOutage", "n": nref}, {"op": "reload", "loc": "A"}, {"op": "cronOutage", "n": 0},
+                {"op": "restart"}, {"op": "getRule", "loc": "A", "id": "s1"}, {"op": "getRule", "loc": "A", "id": "s2"}, {"op": "getRule", "loc": "A", "id": "f1"}]})
+    for c, o in zip(oc, run_cases(drv, oc)):
+        ck.count({"outage": c["state"], "ops": c["ops"]})
+        outs = (o or {}).get("outs") or []
+        if len(outs) != len(c["ops"]):
+            ck.violation("the outage scenario could not be run: %s" % canon(o)[:300], {"case": c, "impl": o}, tag="outage"); continue
+        lost = [c["ops"][k]["id"] for k in (7, 8) if outs[k].get("err") is not None]
+        if lost:
+            ck.violation("the cron service was unreachable during a reload (%s state); afterwards the stored scheduled rule(s) %s are gone: reload answered %s, after the restart getRule answers %s" % (
+                c["state"], lost, canon({k: v for k, v in outs[4].items() if k in ("ok", "err", "msg")})[:160], canon({k: v for k, v in outs[7].items() if k in ("ok", "err", "msg")})[:160]),
+                {"case": c, "impl": outs}, tag="outage")
+
     impl_f, model_f, mc_f = run_both(fast, drv, mdl)
     impl_s, model_s, mc_s = run_both(slow, drv, mdl, slow=True)
 
